@@ -180,7 +180,7 @@ func Specs() map[string]*PropSpec {
 		Thorough: []Inst{{Pkg: "x/evm/keeper", Fn: "VerifC07_GasUsed", Params: pm(), EngineReplay: true}, {Pkg: "x/evm/keeper", Fn: "VerifC07_VerifyFee", Params: pm()},
 			{Pkg: "app/ante/evm", Fn: "VerifC07_EthFloor", Params: pm("msgs", "3")}, {Pkg: "app/ante/cosmos", Fn: "VerifC07_CosmosFloor", Params: pm()}},
 		Bounds: map[string]string{
-			"quick":    "one message call through the real ApplyMessageWithConfig + RefundGas with the EVM interpreter stubbed to an arbitrary outcome (gas limit < 2^62, any leftover, refund counter, VM error, intrinsic gas; multiplier any Dec in [0,1]; price < 2^128); VerifyFee for legacy and dynamic-fee data; eth min-gas-price decorator over <= 2 messages; Cosmos min-gas-price decorator over 5 fee shapes",
+			"quick":    "one message call or contract creation through the real ApplyMessageWithConfig + RefundGas with the EVM interpreter stubbed to an arbitrary outcome (gas limit < 2^62, any leftover, refund counter, VM error, intrinsic gas; multiplier any Dec in [0,1]; price < 2^128); VerifyFee for legacy and dynamic-fee data; eth min-gas-price decorator over <= 2 messages; Cosmos min-gas-price decorator over 5 fee shapes",
 			"thorough": "eth min-gas-price decorator over <= 3 messages",
 		},
 		Outside:     []string{"contract creation (nonce bump through the account keeper)", "EthGasConsumeDecorator / DeductTxCostsFromUserBalance (SDK DeductFees): the deduction amount is VerifyFee's result, which is decided", "multi-message transactions through ApplyTransaction (hooks, bloom, receipts)", "what the real interpreter returns (go-ethereum): any outcome within its contract is covered"},
